@@ -228,9 +228,10 @@ Variable set : T -> N -> fatv -> res T.
 Variable val : T -> N -> fatv.            (* what the store holds *)
 Variable okc : N -> Prop.                  (* addressable entries *)
 Variable okv : fatv -> Prop.               (* storable values *)
-Hypothesis get_val : forall t c, okc c -> get t c = Ok (val t c).
-Hypothesis set_ok : forall t c v, okc c -> okv v ->
-  exists t', set t c v = Ok t' /\ val t' c = v /\ forall c', c' <> c -> val t' c' = val t c'.
+Variable inv : T -> Prop.                  (* store invariant kept by [set]; [fun _ => True] for the pure store *)
+Hypothesis get_val : forall t c, inv t -> okc c -> get t c = Ok (val t c).
+Hypothesis set_ok : forall t c v, inv t -> okc c -> okv v ->
+  exists t', set t c v = Ok t' /\ inv t' /\ val t' c = v /\ forall c', c' <> c -> okc c' -> val t' c' = val t c'.
 Hypothesis okv_free : okv Free.
 Hypothesis okv_eoc : okv Eoc.
 Variable cs total : N.
@@ -244,12 +245,12 @@ Let fworld := fworld T.
 (* ------------------------------------------------------------ chains *)
 Definition nextv (t : T) (c : N) : option N := match val t c with Data n => Some n | _ => None end.
 
-Lemma ci_next_val t c : okc c ->
+Lemma ci_next_val t c : inv t -> okc c ->
   ci_next T get t (ci_new c) =
   ({| ci_cluster := nextv t c; ci_err := false |}, match nextv t c with Some n => Some (Ok n) | None => None end).
 Proof.
-  intros H. unfold ci_next, ci_new. cbn [ci_err ci_cluster].
-  rewrite (get_next_val T get val okc get_val) by exact H. reflexivity.
+  intros Hst H. unfold ci_next, ci_new. cbn [ci_err ci_cluster].
+  rewrite (get_next_val T get val okc inv get_val) by assumption. reflexivity.
 Qed.
 
 Lemma chain_nth_next t : forall l f j c, chain t f l -> nth_error l j = Some c -> nextv t c = nth_error l (S j).
@@ -308,7 +309,14 @@ Proof. intros H E. destruct (chain_head T val _ _ _ H) as [l' E']. congruence. Q
 Definition content (w : fworld) (l : list N) (sz : N) : list N := firstn (N.to_nat sz) (cat (w_data T w) l).
 
 Definition WorldInv (w : fworld) : Prop :=
-  fi_inv T val (w_fat T w) (w_fi T w) total /\ forall c, length (w_data T w c) = N.to_nat cs.
+  inv (w_fat T w) /\ fi_inv T val (w_fat T w) (w_fi T w) total /\ forall c, length (w_data T w c) = N.to_nat cs.
+
+Lemma W_inv w : WorldInv w -> inv (w_fat T w).
+Proof. intros H. apply H. Qed.
+Lemma W_fi w : WorldInv w -> fi_inv T val (w_fat T w) (w_fi T w) total.
+Proof. intros H. apply H. Qed.
+Lemma W_data w : WorldInv w -> forall c, length (w_data T w c) = N.to_nat cs.
+Proof. intros H. apply H. Qed.
 
 (* [sz] = the size recorded in the entry, [l] = the cluster chain of the file *)
 Record FileInv (w : fworld) (h : fhandle) (sz : N) (l : list N) : Prop := {
@@ -356,16 +364,16 @@ Lemma inv_okc w h sz l x : FileInv w h sz l -> In x l -> okc x.
 Proof. intros I Hx. apply Hokc. apply (inv_range _ _ _ _ I x Hx). Qed.
 
 (* the cluster that holds the byte at the cursor: shared by read and write *)
-Lemma cluster_at w h sz l : FileInv w h sz l ->
+Lemma cluster_at w h sz l : inv (w_fat T w) -> FileInv w h sz l ->
   (if h_off h mod cs =? 0 then next_cluster_of T get (w_fat T w) h else Ok (h_cur h))
   = Ok (nth_error l (N.to_nat (h_off h / cs))).
 Proof.
-  intros I. destruct (N.eqb_spec (h_off h mod cs) 0) as [Hm|Hm].
+  intros Hst I. destruct (N.eqb_spec (h_off h mod cs) 0) as [Hm|Hm].
   - unfold next_cluster_of. destruct (N.eq_dec (h_off h) 0) as [H0|H0].
     + rewrite (inv_cur _ _ _ _ I), H0. cbn [N.eqb]. rewrite (inv_head _ _ _ _ I).
       rewrite N.div_0_l by lia. reflexivity.
     + destruct (inv_cur_some _ _ _ _ I H0) as (c & Hcur & Hn). rewrite Hcur.
-      rewrite ci_next_val by (apply (inv_okc _ _ _ _ c I); eapply nth_error_In; exact Hn). cbn [snd].
+      rewrite ci_next_val by (try exact Hst; apply (inv_okc _ _ _ _ c I); eapply nth_error_In; exact Hn). cbn [snd].
       pose proof (inv_chain _ _ _ _ I) as Hc. destruct (h_first h) as [f|].
       2:{ subst l. destruct (N.to_nat (cdiv cs (h_off h) - 1)); discriminate. }
       rewrite (chain_nth_next _ _ _ _ _ Hc Hn).
@@ -391,7 +399,7 @@ Theorem file_read_spec w h sz l n :
     k <= N.min n (sz - h_off h) /\ (0 < k \/ N.min n (sz - h_off h) = 0) /\
     h_off h' = h_off h + k /\ FileInv w h' sz l.
 Proof.
-  intros [_ Hdata] I. unfold file_read. rewrite (cluster_at _ _ _ _ I). cbn [bind].
+  intros (Hst & _ & Hdata) I. unfold file_read. rewrite (cluster_at _ _ _ _ Hst I). cbn [bind].
   pose proof (inv_off _ _ _ _ I) as Hoff. pose proof (inv_len _ _ _ _ I) as Hlen.
   pose proof (div_bounds cs Hcs (h_off h)) as (D1 & D2 & D3 & D4).
   destruct (nth_error l (N.to_nat (h_off h / cs))) as [cc|] eqn:En.
@@ -431,13 +439,13 @@ Proof.
 Qed.
 
 (* walking n steps from the first cluster of a chain that is long enough reaches its n-th element *)
-Lemma seek_walk_chain t : forall n l f i, chain t f l -> (forall x, In x l -> okc x) -> (n < length l)%nat ->
+Lemma seek_walk_chain t (Hst : inv t) : forall n l f i, chain t f l -> (forall x, In x l -> okc x) -> (n < length l)%nat ->
   exists c, nth_error l n = Some c /\ seek_walk T get cs t (ci_new f) f i n = Ok (c, None).
 Proof.
   induction n as [|n IH]; intros l f i Hc Hok Hn.
   - destruct (chain_head T val _ _ _ Hc) as [l' ->]. exists f. split; reflexivity.
   - cbn [seek_walk]. destruct (chain_head T val _ _ _ Hc) as [l' ->].
-    rewrite ci_next_val by (apply Hok; left; reflexivity).
+    rewrite ci_next_val by (try exact Hst; apply Hok; left; reflexivity).
     inversion Hc as [c0 Hnd E1 E2|c0 m l0 Hv Hc' E1 E2]; subst.
     + cbn [length] in Hn. lia.
     + unfold nextv. rewrite Hv.
@@ -454,13 +462,13 @@ Lemma seek_wide sz off pos :
 Proof. destruct pos; reflexivity. Qed.
 
 Theorem file_seek_spec w h sz l pos :
-  FileInv w h sz l ->
+  WorldInv w -> FileInv w h sz l ->
   let tg := seek_target sz (h_off h) pos in
   if (tg <? 0)%Z then file_seek T get cs w h pos = Err EInvalidInput
   else exists h', file_seek T get cs w h pos = Ok (w, h', N.min (Z.to_N tg) sz) /\
          h_off h' = N.min (Z.to_N tg) sz /\ FileInv w h' sz l.
 Proof.
-  intros I tg. unfold file_seek. rewrite (inv_size_eq _ _ _ _ I), seek_wide. fold tg.
+  intros W I tg. unfold file_seek. rewrite (inv_size_eq _ _ _ _ I), seek_wide. fold tg.
   pose proof (inv_size _ _ _ _ I) as Hsz. pose proof (inv_off _ _ _ _ I) as Hoff. unfold u32_max in Hsz.
   destruct (Z.ltb_spec tg 0) as [Hneg|Hpos].
   - destruct (Z.ltb_spec (Z.of_N sz) tg) as [|_]; [lia|]. unfold try_u32.
@@ -490,7 +498,7 @@ Proof.
     pose proof (cdiv_mono cs Hcs _ _ Hnew) as Hm.
     destruct (h_first h) as [first|] eqn:Ef.
     + unfold u32_sub. destruct (N.leb_spec 1 (cdiv cs new)) as [_|]; [|lia]. cbn [bind].
-      destruct (seek_walk_chain (w_fat T w) (N.to_nat (cdiv cs new - 1)) l first 0 Hc
+      destruct (seek_walk_chain (w_fat T w) (W_inv _ W) (N.to_nat (cdiv cs new - 1)) l first 0 Hc
                   (fun x Hx => inv_okc _ _ _ _ x I Hx) ltac:(lia)) as (c & Hnth & Hw).
       rewrite Hw. cbn [bind]. eexists. split; [reflexivity|]. split; [reflexivity|].
       rewrite <- Ef. apply inv_move; [exact I|exact Hnew|].
@@ -547,11 +555,11 @@ Theorem file_truncate_spec w h sz l :
     FileInv w' h' (h_off h) (firstn keep l) /\ WorldInv w' /\
     content w' (firstn keep l) (h_off h) = firstn (N.to_nat (h_off h)) (content w l sz) /\
     (forall x, In x (skipn keep l) -> val (w_fat T w') x = Free) /\
-    (forall x, ~ In x l -> val (w_fat T w') x = val (w_fat T w) x) /\
+    (forall x, ~ In x l -> okc x -> val (w_fat T w') x = val (w_fat T w) x) /\
     count_spec T val (w_fat T w') 2 (N.to_nat total)
     = count_spec T val (w_fat T w) 2 (N.to_nat total) + N.of_nat (length (skipn keep l)).
 Proof.
-  intros [Hfi Hdata] I keep. unfold file_truncate.
+  intros (Hst & Hfi & Hdata) I keep. unfold file_truncate.
   destruct (inv_entry _ _ _ _ I) as (e & He & Hef & Hes). rewrite He.
   pose proof (inv_off _ _ _ _ I) as Hoff. pose proof (inv_size _ _ _ _ I) as Hsz.
   pose proof (inv_chain _ _ _ _ I) as Hc. pose proof (inv_len _ _ _ _ I) as Hl.
@@ -560,11 +568,11 @@ Proof.
   - (* cut at 0: the whole chain is released *)
     rewrite (inv_cur _ _ _ _ I). unfold keep. rewrite H0, (cdiv_0 cs Hcs). cbn [N.eqb negb N.to_nat firstn skipn].
     destruct (h_first h) as [f|] eqn:Ef.
-    + destruct (fs_free_chain_inv T get set val okc okv get_val set_ok okv_free (w_fat T w) (w_fi T w) total f l
-                  (chain_fuel total) Hfi Hc Hnd (fun x Hx => inv_alloc_info _ _ _ _ x I Hx) Hfuel)
-        as (t' & fi' & Hr & Hfi' & Hcnt & Hfree & Hfr).
+    + destruct (fs_free_chain_inv T get set val okc okv inv get_val set_ok okv_free (w_fat T w) (w_fi T w) total f l
+                  (chain_fuel total) Hst Hokc Hfi Hc Hnd (fun x Hx => inv_alloc_info _ _ _ _ x I Hx) Hfuel)
+        as (t' & fi' & Hr & Hst' & Hfi' & Hcnt & Hfree & Hfr).
       rewrite Hr. cbn [bind]. eexists _, _. split; [reflexivity|]. cbn [w_data w_fat w_fi h_off].
-      split; [reflexivity|]. split; [reflexivity|]. split; [|split; [split; assumption|]].
+      split; [reflexivity|]. split; [reflexivity|]. split; [|split; [split; [|split]; assumption|]].
       * constructor; cbn [h_entry h_first h_off h_cur w_fat].
         -- eexists. split; [reflexivity|]. rewrite ed_set_first_first, ed_set_first_size. split; [reflexivity|].
            eapply ed_set_size_size. exact Hes.
@@ -577,7 +585,7 @@ Proof.
         -- try rewrite H0; reflexivity.
       * split; [reflexivity|]. split; [exact Hfree|]. split; [exact Hfr|exact Hcnt].
     + subst l. eexists _, _. split; [reflexivity|]. split; [reflexivity|]. split; [reflexivity|].
-      split; [|split; [split; assumption|]].
+      split; [|split; [split; [|split]; assumption|]].
       * constructor; cbn [h_entry h_first h_off h_cur w_fat].
         -- eexists. split; [reflexivity|]. rewrite ed_set_first_first, ed_set_first_size. split; [reflexivity|].
            eapply ed_set_size_size. exact Hes.
@@ -603,27 +611,27 @@ Proof.
     rewrite El in Hc, Hnd.
     pose proof (chain_suffix _ _ _ _ _ Hc) as Hcs2.
     destruct (NoDup_app_parts _ _ Hnd) as (Hnd1 & Hnd2 & Hdisj).
-    destruct (fs_truncate_chain_inv T get set val okc okv get_val set_ok okv_free okv_eoc (w_fat T w) (w_fi T w) total c l2
-                (chain_fuel total) Hfi Hcs2 Hnd2
+    destruct (fs_truncate_chain_inv T get set val okc okv inv get_val set_ok okv_free okv_eoc (w_fat T w) (w_fi T w) total c l2
+                (chain_fuel total) Hst Hokc Hfi Hcs2 Hnd2
                 (fun x Hx => inv_alloc_info _ _ _ _ x I ltac:(rewrite El; apply in_or_app; right; exact Hx))
                 ltac:(rewrite El, app_length in Hfuel; cbn [length] in Hfuel; lia))
-      as (t' & fi' & Hr & Hfi' & Hce & Hfree & Hfr & Hcnt).
+      as (t' & fi' & Hr & Hst' & Hfi' & Hce & Hfree & Hfr & Hcnt).
     rewrite Hr. cbn [bind]. eexists _, _. split; [reflexivity|]. cbn [w_data w_fat w_fi h_off].
     split; [reflexivity|]. split; [reflexivity|].
-    split; [|split; [split; assumption|]].
+    split; [|split; [split; [|split]; assumption|]].
     + constructor; cbn [h_entry h_first h_off h_cur w_fat].
       * eexists. split; [reflexivity|]. rewrite ed_set_size_first. split; [congruence|].
         eapply ed_set_size_size. exact Hes.
       * lia.
       * apply (chain_cut (w_fat T w) t' l1 f c l2 Hc).
-        -- intros x Hx. apply Hfr. exact (Hdisj x Hx).
+        -- intros x Hx. apply Hfr; [exact (Hdisj x Hx)|]. apply (inv_okc _ _ _ _ x I). rewrite El. apply in_or_app. left. exact Hx.
         -- intros n. rewrite Hce. discriminate.
       * replace (l1 ++ c :: l2) with ((l1 ++ [c]) ++ l2) in Hnd by (rewrite <- app_assoc; reflexivity).
         exact (proj1 (NoDup_app_parts _ _ Hnd)).
       * intros x Hx. destruct (inv_range _ _ _ _ I x ltac:(rewrite El; apply in_app_or in Hx; apply in_or_app;
           destruct Hx as [Hx|[<-|[]]]; [left; exact Hx|right; left; reflexivity])) as [R F]. split; [exact R|].
         apply in_app_or in Hx. destruct Hx as [Hx|[<-|[]]].
-        -- rewrite Hfr by (exact (Hdisj x Hx)). exact F.
+        -- rewrite Hfr; [exact F|exact (Hdisj x Hx)|apply Hokc; exact R].
         -- rewrite Hce. discriminate.
       * rewrite app_length. cbn [length]. lia.
       * lia.
@@ -635,7 +643,7 @@ Proof.
         replace (N.to_nat (h_off h) - length (cat (w_data T w) (l1 ++ [c])))%nat with 0%nat.
         2:{ rewrite (cat_length _ (N.to_nat cs)) by exact Hdata. rewrite app_length. cbn [length]. nia. }
         cbn [firstn]. rewrite app_nil_r. reflexivity.
-      * intros x Hx. apply Hfr. intros Hin. apply Hx. rewrite El. apply in_or_app. right. exact Hin.
+      * intros x Hx Hokx. apply Hfr; [|exact Hokx]. intros Hin. apply Hx. rewrite El. apply in_or_app. right. exact Hin.
 Qed.
 
 (* ------------------------------------------------------------ write *)
@@ -681,7 +689,7 @@ Lemma write_into w h sz l buf cc ws :
   content w2 l sz' = write_at (firstn (N.to_nat sz) (cat (w_data T w) l)) (N.to_nat (h_off h)) bs /\
   (forall x, x <> cc -> w_data T w2 x = w_data T w x).
 Proof.
-  intros [Hfi Hdata] (e & He & Hef & Hes) Hsz Hc Hnd Hr Hoff En Hlen Hws1 Hws2 Hws3 Hws4 bs w2 h2 sz'.
+  intros (Hst & Hfi & Hdata) (e & He & Hef & Hes) Hsz Hc Hnd Hr Hoff En Hlen Hws1 Hws2 Hws3 Hws4 bs w2 h2 sz'.
   pose proof (div_bounds cs Hcs (h_off h)) as (D1 & D2 & D3 & D4).
   set (oic := h_off h mod cs) in *. set (j := h_off h / cs) in *. clearbody oic j.
   assert (length bs = N.to_nat ws) as Lbs by (unfold bs; rewrite firstn_length; unfold len_N in Hws2; lia).
@@ -702,7 +710,7 @@ Proof.
     + unfold sz'. lia.
     + destruct (N.eqb_spec (h_off h + ws) 0) as [|_]; [lia|].
       rewrite (cdiv_in cs Hcs (h_off h + ws) j) by lia. symmetry. exact En.
-  - split; [exact Hfi|]. intros x. unfold w2. cbn [w_data]. unfold data_write. destruct (x =? cc); [|apply Hdata].
+  - split; [exact Hst|]. split; [exact Hfi|]. intros x. unfold w2. cbn [w_data]. unfold data_write. destruct (x =? cc); [|apply Hdata].
     apply blk_write_length; [apply Hdata|lia].
   - unfold content, w2. cbn [w_data].
     set (d := w_data T w) in *. set (d2 := data_write d cc oic bs).
@@ -742,9 +750,9 @@ Lemma alloc_extend w h sz l t' fi' c :
   (exists e, h_entry h1 = Some e /\ ed_first e = h_first h1 /\ ed_size e = Some sz) /\
   match h_first h1 with Some f => chain t' f (l ++ [c]) | None => l ++ [c] = [] end /\
   NoDup (l ++ [c]) /\ (forall x, In x (l ++ [c]) -> 2 <= x < total + 2 /\ val t' x <> Free) /\
-  h_off h1 = h_off h /\ (forall x, ~ In x (l ++ [c]) -> val t' x = val (w_fat T w) x).
+  h_off h1 = h_off h /\ (forall x, ~ In x (l ++ [c]) -> okc x -> val t' x = val (w_fat T w) x).
 Proof.
-  intros [Hfi Hdata] I Heq Hmod Ea w1 h1.
+  intros (Hst & Hfi & Hdata) I Heq Hmod Ea w1 h1.
   destruct (inv_entry _ _ _ _ I) as (e & He & Hef & Hes).
   pose proof (inv_chain _ _ _ _ I) as Hc. pose proof (inv_len _ _ _ _ I) as Hl.
   pose proof (inv_nodup _ _ _ _ I) as Hnd. pose proof (inv_range _ _ _ _ I) as Hr.
@@ -755,13 +763,13 @@ Proof.
     - rewrite (inv_cur _ _ _ _ I), H0. exact Logic.I.
     - destruct (inv_cur_some _ _ _ _ I H0) as (p & Hcur & Hn). rewrite Hcur.
       apply nth_error_In in Hn. destruct (inv_alloc_info _ _ _ _ p I Hn) as (A & _ & B). split; [exact A|split; [exact Hokd|exact B]]. }
-  pose proof (fs_alloc_inv T get set val okc okv get_val set_ok okv_eoc (w_fat T w) (w_fi T w) (h_cur h) total Hfi Hokc Hprev) as Hinv.
-  rewrite Ea in Hinv. destruct Hinv as (Hfi' & Hcr & Hcf & _).
+  pose proof (fs_alloc_inv T get set val okc okv inv get_val set_ok okv_eoc (w_fat T w) (w_fi T w) (h_cur h) total Hst Hfi Hokc Hprev) as Hinv.
+  rewrite Ea in Hinv. destruct Hinv as (Hst' & Hfi' & Hcr & Hcf & _).
   assert (~ In c l) as Hcl by (intros Hin; destruct (Hr c Hin) as [_ F]; contradiction).
-  pose proof (alloc_ok T get set val okc okv get_val set_ok okv_eoc (w_fat T w) (h_cur h) (fi_next (w_fi T w)) total t' c
-                (proj2 Hfi) Hokc ltac:(destruct (h_cur h); [split; [apply Hprev|apply Hprev]|exact Logic.I]) (fs_alloc_ok_inv _ _ _ _ _ _ Ea))
-    as (_ & _ & Hpost).
-  split; [exact Hcf|]. split; [exact Hcr|]. split; [exact Hcl|]. split; [split; [exact Hfi'|exact Hdata]|].
+  pose proof (alloc_ok T get set val okc okv inv get_val set_ok okv_eoc (w_fat T w) (h_cur h) (fi_next (w_fi T w)) total t' c
+                Hst (proj2 Hfi) Hokc ltac:(destruct (h_cur h); [split; [apply Hprev|apply Hprev]|exact Logic.I]) (fs_alloc_ok_inv _ _ _ _ _ _ Ea))
+    as (_ & _ & _ & Hpost).
+  split; [exact Hcf|]. split; [exact Hcr|]. split; [exact Hcl|]. split; [split; [exact Hst'|split; [exact Hfi'|exact Hdata]]|].
   destruct (N.eq_dec (h_off h) 0) as [H0|H0].
   - (* empty file: the new cluster becomes the first one *)
     assert (sz = 0) as Hz by lia. pose proof (proj2 (inv_first_none _ _ _ _ I) Hz) as Ef.
@@ -773,7 +781,7 @@ Proof.
     + constructor; [intros []|constructor].
     + intros x [<-|[]]. split; [exact Hcr|]. rewrite Hce. discriminate.
     + reflexivity.
-    + intros x Hx. apply Hfr. intros ->. apply Hx. left; reflexivity.
+    + intros x Hx Hokx. apply Hfr; [|exact Hokx]. intros ->. apply Hx. left; reflexivity.
   - (* the new cluster is linked after current_cluster, the last cluster of the chain *)
     destruct (inv_cur_some _ _ _ _ I H0) as (p & Hcur & Hn). rewrite Hcur in Hpost.
     destruct Hpost as (Hpd & Hce & Hfr).
@@ -792,15 +800,16 @@ Proof.
       * intros x Hx. apply Hfr.
         -- intros ->. apply Hcl. rewrite El. apply in_or_app. left. exact Hx.
         -- intros ->. exact (Hdisj p Hx (or_introl eq_refl)).
+        -- apply (inv_okc _ _ _ _ x I). rewrite El. apply in_or_app. left. exact Hx.
       * intros n. rewrite Hce. discriminate.
     + apply NoDup_snoc; [rewrite El; exact Hnd|exact Hcl].
     + intros x Hx. apply in_app_or in Hx. destruct Hx as [Hx|[<-|[]]].
       * destruct (Hr x Hx) as [R F]. split; [exact R|].
         destruct (N.eq_dec x p) as [->|Hxp]; [rewrite Hpd; discriminate|].
-        rewrite Hfr; [exact F| |exact Hxp]. intros ->. contradiction.
+        rewrite Hfr; [exact F| |exact Hxp|apply Hokc; exact R]. intros ->. contradiction.
       * split; [exact Hcr|]. rewrite Hce. discriminate.
     + reflexivity.
-    + intros x Hx. apply Hfr.
+    + intros x Hx Hokx. apply Hfr; [| |exact Hokx].
       * intros ->. apply Hx. apply in_or_app. right. left. reflexivity.
       * intros ->. apply Hx. apply in_or_app. left. rewrite El. apply in_or_app. right. left. reflexivity.
 Qed.
@@ -815,7 +824,7 @@ Theorem file_write_spec w h sz l buf :
         FileInv w' h' (N.max sz (h_off h + k)) l' /\ WorldInv w' /\
         content w' l' (N.max sz (h_off h + k))
         = write_at (content w l sz) (N.to_nat (h_off h)) (firstn (N.to_nat k) buf) /\
-        (forall x, ~ In x l' -> val (w_fat T w') x = val (w_fat T w) x) /\
+        (forall x, ~ In x l' -> okc x -> val (w_fat T w') x = val (w_fat T w) x) /\
         (forall x, ~ In x l' -> w_data T w' x = w_data T w x)
   | Err e => e = ENotEnoughSpace /\ (forall x, 2 <= x < total + 2 -> val (w_fat T w) x <> Free) /\
              h_off h = sz /\ sz mod cs = 0
@@ -826,7 +835,7 @@ Proof.
   intros W I. unfold file_write.
   pose proof (inv_off _ _ _ _ I) as Hoff. pose proof (inv_size _ _ _ _ I) as Hsz. pose proof (inv_len _ _ _ _ I) as Hlen.
   pose proof (div_bounds cs Hcs (h_off h)) as (D1 & D2 & D3 & D4).
-  pose proof (cluster_at _ _ _ _ I) as Hsel.
+  pose proof (cluster_at _ _ _ _ (W_inv _ W) I) as Hsel.
   unfold MAX_FILE_SIZE.
   set (ws := N.min (N.min (len_N buf) (cs - h_off h mod cs)) (u32_max - h_off h)).
   assert (ws <= len_N buf /\ ws <= cs - h_off h mod cs /\ h_off h + ws <= u32_max /\
@@ -881,25 +890,25 @@ Proof.
         -- rewrite Hcont. unfold content. cbn [w_data w1]. f_equal.
            rewrite cat_app, firstn_app.
            replace (N.to_nat sz - length (cat (w_data T w) l))%nat with 0%nat.
-           2:{ rewrite (cat_length _ (N.to_nat cs)) by apply W. set (q := h_off h / cs) in *. clearbody q. nia. }
+           2:{ rewrite (cat_length _ (N.to_nat cs)) by apply (W_data _ W). set (q := h_off h / cs) in *. clearbody q. nia. }
            cbn [firstn]. apply app_nil_r.
         -- exact Hfr1.
         -- intros x Hx. apply Hdfr. intros ->. apply Hx. apply in_or_app. right. left. reflexivity.
       * (* no space *)
-        pose proof (fs_alloc_inv T get set val okc okv get_val set_ok okv_eoc (w_fat T w) (w_fi T w) (h_cur h) total (proj1 W) Hokc) as Hinv.
+        pose proof (fs_alloc_inv T get set val okc okv inv get_val set_ok okv_eoc (w_fat T w) (w_fi T w) (h_cur h) total (W_inv _ W) (W_fi _ W) Hokc) as Hinv.
         rewrite Ea in Hinv. destruct Hinv as (-> & Hnf).
         { destruct (N.eq_dec (h_off h) 0) as [H0|H0].
           - rewrite (inv_cur _ _ _ _ I), H0. exact Logic.I.
           - destruct (inv_cur_some _ _ _ _ I H0) as (p & Hcur & Hn). rewrite Hcur.
             apply nth_error_In in Hn. destruct (inv_alloc_info _ _ _ _ p I Hn) as (A & _ & B). split; [exact A|split; [exact Hokd|exact B]]. }
         split; [reflexivity|]. split; [exact Hnf|]. split; assumption.
-      * pose proof (fs_alloc_inv T get set val okc okv get_val set_ok okv_eoc (w_fat T w) (w_fi T w) (h_cur h) total (proj1 W) Hokc) as Hinv.
+      * pose proof (fs_alloc_inv T get set val okc okv inv get_val set_ok okv_eoc (w_fat T w) (w_fi T w) (h_cur h) total (W_inv _ W) (W_fi _ W) Hokc) as Hinv.
         rewrite Ea in Hinv. apply Hinv.
         destruct (N.eq_dec (h_off h) 0) as [H0|H0].
         -- rewrite (inv_cur _ _ _ _ I), H0. exact Logic.I.
         -- destruct (inv_cur_some _ _ _ _ I H0) as (p & Hcur & Hn). rewrite Hcur.
            apply nth_error_In in Hn. destruct (inv_alloc_info _ _ _ _ p I Hn) as (A & _ & B). split; [exact A|split; [exact Hokd|exact B]].
-      * pose proof (fs_alloc_inv T get set val okc okv get_val set_ok okv_eoc (w_fat T w) (w_fi T w) (h_cur h) total (proj1 W) Hokc) as Hinv.
+      * pose proof (fs_alloc_inv T get set val okc okv inv get_val set_ok okv_eoc (w_fat T w) (w_fi T w) (h_cur h) total (W_inv _ W) (W_fi _ W) Hokc) as Hinv.
         rewrite Ea in Hinv. apply Hinv.
         destruct (N.eq_dec (h_off h) 0) as [H0|H0].
         -- rewrite (inv_cur _ _ _ _ I), H0. exact Logic.I.
@@ -933,11 +942,11 @@ Fixpoint ext_sizes (l : list N) (bl : N) : list (N * N) :=
   | c :: r => (c, N.min cs bl) :: ext_sizes r (bl - N.min cs bl)
   end.
 
-Lemma ext_walk_chain t : forall l' f bl fuel, chain t f (f :: l') -> (forall x, In x (f :: l') -> okc x) ->
+Lemma ext_walk_chain t (Hst : inv t) : forall l' f bl fuel, chain t f (f :: l') -> (forall x, In x (f :: l') -> okc x) ->
   (length l' < fuel)%nat -> ext_walk T get cs t (ci_new f) bl fuel = Ok (ext_sizes l' bl).
 Proof.
   induction l' as [|a l' IH]; intros f bl fuel Hc Hok Hfuel; (destruct fuel as [|fuel]; [cbn [length] in Hfuel; lia|]);
-    cbn [ext_walk]; rewrite ci_next_val by (apply Hok; left; reflexivity).
+    cbn [ext_walk]; rewrite ci_next_val by (try exact Hst; apply Hok; left; reflexivity).
   - inversion Hc as [c0 Hnd E1 E2|c0 m l0 Hv Hc' E1 E2]; subst.
     + unfold nextv. destruct (val t f) eqn:E; try reflexivity. exfalso. exact (Hnd _ eq_refl).
     + destruct (chain_head T val _ _ _ Hc') as [l'' E]. discriminate.
@@ -987,7 +996,7 @@ Qed.
 
 Lemma content_length w h sz l : WorldInv w -> FileInv w h sz l -> len_N (content w l sz) = sz.
 Proof.
-  intros [_ Hd] I. unfold len_N, content. rewrite firstn_length, (cat_length _ (N.to_nat cs)) by exact Hd.
+  intros (_ & _ & Hd) I. unfold len_N, content. rewrite firstn_length, (cat_length _ (N.to_nat cs)) by exact Hd.
   pose proof (inv_capacity _ _ _ _ I). nia.
 Qed.
 
@@ -1003,11 +1012,11 @@ Proof.
   - unfold file_extents. rewrite (inv_size_eq _ _ _ _ I).
     pose proof (inv_chain _ _ _ _ I) as Hc. destruct (h_first h) as [f|]; [|subst l; reflexivity].
     destruct (chain_head T val _ _ _ Hc) as [l' ->].
-    rewrite (ext_walk_chain (w_fat T w) l' f (sz - N.min cs sz) (chain_fuel total) Hc (fun x Hx => inv_okc _ _ _ _ x I Hx)).
+    rewrite (ext_walk_chain (w_fat T w) (W_inv _ W) l' f (sz - N.min cs sz) (chain_fuel total) Hc (fun x Hx => inv_okc _ _ _ _ x I Hx)).
     + reflexivity.
     + pose proof (chain_fuel_ok _ _ _ _ I) as F. cbn [length] in F. lia.
   - apply ext_sizes_total. exact (inv_capacity _ _ _ _ I).
-  - unfold content. apply ext_sizes_bytes. apply W.
+  - unfold content. apply ext_sizes_bytes. apply (W_data _ W).
   - clear. revert sz. induction l as [|c r IH]; intros sz e He; [destruct He|].
     cbn [ext_sizes] in He. destruct He as [<-|He]; [cbn [snd]; lia|exact (IH _ e He)].
 Qed.
@@ -1062,12 +1071,12 @@ Proof.
         { destruct Hl' as [->|(c & -> & Hcf & _)]; [exact D|]. intros x Hx Hx2. apply in_app_or in Hx.
           destruct Hx as [Hx|[<-|[]]]; [exact (D x Hx Hx2)|]. destruct (inv_range _ _ _ _ I2 c Hx2) as [_ F]. contradiction. }
         split; [|split; [|exact D']].
-        -- apply (FileInv_frame w w' h2 sz2 l2 I2). intros x Hx. apply Hvfr. intros Hin. exact (D' x Hin Hx).
+        -- apply (FileInv_frame w w' h2 sz2 l2 I2). intros x Hx. apply Hvfr; [intros Hin; exact (D' x Hin Hx)|exact (inv_okc _ _ _ _ x I2 Hx)].
         -- apply content_frame. intros x Hx. apply Hdfr. intros Hin. exact (D' x Hin Hx).
     + destruct Hw as (-> & _). exists w, h, (RFail ENotEnoughSpace), sz, l. split; [reflexivity|]. split; [exact W|]. split; [exact I|].
       split; [reflexivity|exact Hsame].
   - (* seek *)
-    pose proof (file_seek_spec w h sz l p I) as Hs. cbv zeta in Hs.
+    pose proof (file_seek_spec w h sz l p W I) as Hs. cbv zeta in Hs.
     destruct (Z.ltb_spec (seek_target sz (h_off h) p) 0) as [Hneg|Hpos].
     + rewrite Hs. cbn [of_res]. exists w, h, (RFail EInvalidInput), sz, l. split; [reflexivity|]. split; [exact W|]. split; [exact I|].
       split; [|exact Hsame]. cbn [bf_step]. rewrite Lc. destruct (Z.ltb_spec (seek_target sz (h_off h) p) 0) as [_|]; [reflexivity|lia].
@@ -1081,7 +1090,7 @@ Proof.
     rewrite Hr. cbn [of_res]. eexists w', h', RDone, (h_off h), _. split; [reflexivity|]. split; [exact W'|]. split; [exact I'|].
     split; [cbn [bf_step]; rewrite Hcont, Ho; reflexivity|].
     intros h2 sz2 l2 I2 D. split; [|split].
-    + apply (FileInv_frame w w' h2 sz2 l2 I2). intros x Hx. apply Hvfr. intros Hin. exact (D x Hin Hx).
+    + apply (FileInv_frame w w' h2 sz2 l2 I2). intros x Hx. apply Hvfr; [intros Hin; exact (D x Hin Hx)|exact (inv_okc _ _ _ _ x I2 Hx)].
     + apply content_frame. intros x _. rewrite Hd. reflexivity.
     + intros x Hx Hx2. exact (D x (firstn_incl _ _ _ Hx) Hx2).
 Qed.
